@@ -46,21 +46,26 @@ inline std::string operator+(const char* a, const Input_txt& b) { return std::st
 
 // ---------------------------------------------------------------------------------------------- diagram comparison
 struct Expected {
-  std::vector<Interval> offdiag;  // finite, birth < death
+  std::vector<Interval> offdiag;  // birth < death (the death may be +inf and the birth -inf when the input has such values)
   std::vector<Interval> diag;     // birth == death
   double minimum = 0;
   int n_essential = 0;
+  bool has_inf = false;           // the input contains +inf or -inf
+  bool diag_known = true;         // false when the oracle used does not produce the zero-length pairs
 };
-inline Expected expected_of(int n_rows, int n_cols, const std::vector<double>& vals) {
+inline Expected expected_from(Model_diagram&& D, const std::vector<double>& vals) {
   Expected e;
-  for (auto& i : lower_star_diagram(n_rows, n_cols, vals)) {
-    if (i.death == kInf) { e.n_essential++; e.minimum = i.birth; }
-    else if (i.birth == i.death) e.diag.push_back(i);
-    else e.offdiag.push_back(i);
-  }
-  std::sort(e.offdiag.begin(), e.offdiag.end());
-  std::sort(e.diag.begin(), e.diag.end());
+  e.offdiag = std::move(D.offdiag); e.diag = std::move(D.diag);
+  e.n_essential = (int)D.essential.size();
+  if (!D.essential.empty()) e.minimum = D.essential.back();
+  for (double x : vals) if (x == kInf || x == -kInf) e.has_inf = true;
   return e;
+}
+inline Expected expected_of(int n_rows, int n_cols, const std::vector<double>& vals) {
+  return expected_from(lower_star_pairs(n_rows, n_cols, vals), vals);
+}
+inline bool same_expected(const Expected& a, const Expected& b, bool with_diag) {
+  return a.offdiag == b.offdiag && a.n_essential == b.n_essential && a.minimum == b.minimum && (!with_diag || a.diag == b.diag);
 }
 
 // multiset a - b (both sorted)
@@ -79,7 +84,8 @@ inline bool compare_with_model(Ctx& X, const std::string& who, const std::string
   bool reversed = false, nonfinite = false;
   for (auto& i : emitted) {
     if (!(i.birth <= i.death)) reversed = true;
-    if (i.death == kInf || i.birth == kInf || i.birth == -kInf) nonfinite = true;
+    // (an input without infinite values cannot have a pair with an infinite end; with them, (b, +inf) is an ordinary pair)
+    if (!E.has_inf && (i.death == kInf || i.birth == kInf || i.birth == -kInf)) nonfinite = true;
     if (i.birth == i.death) dg.push_back(i); else off.push_back(i);
   }
   std::sort(off.begin(), off.end()); std::sort(dg.begin(), dg.end());
@@ -105,7 +111,7 @@ inline bool compare_with_model(Ctx& X, const std::string& who, const std::string
     // (the rectangle routine does emit diagonal points, which its only caller filters: those are only checked for being real)
     X.violation(who + ".zero_length_emitted", sig, [&] { return "input " + input_txt + " emitted zero-length pairs " + oracle::show(dg); });
     ok = false;
-  } else if (!dg.empty()) {
+  } else if (!dg.empty() && E.diag_known) {
     auto bad = ms_minus(dg, E.diag);
     if (!bad.empty()) {
       X.violation(who + ".diag_subset", sig + ",dim" + vh::str(bad[0].dim), [&] { return "input " + input_txt + " emitted zero-length pairs " + oracle::show(dg) + " but the filtration only has " + oracle::show(E.diag); });
@@ -163,6 +169,10 @@ bool check_rectangle(Ctx& X, int r, int cN, const std::vector<double>& vals, con
   const std::string sigbase = std::string("shape=") + shape_class(r, cN) + ",shared_corner_min_not_last=" +
                               (shared_corner_min_not_last(r, cN, vals) ? "1" : "0");
   bool ok = true;
+#ifdef GUDHI_DEBUG
+  c.count("build.debug_checks_live.rect");
+#endif
+  try {
   // ---- value mode
   {
     std::vector<Interval> em;
@@ -207,6 +217,13 @@ bool check_rectangle(Ctx& X, int r, int cN, const std::vector<double>& vals, con
       ok = false;
     }
   }
+  } catch (const std::logic_error& e) {
+    // only possible in a build without NDEBUG: one of the routine's own GUDHI_CHECK lines ("Bug in Gudhi ...") fired on an
+    // input of the documented domain (n_rows, n_cols >= 2 always holds here)
+    const std::string what = e.what();
+    X.violation("rect.debug_check_failed", sigbase, [&] { return "input " + input_txt + " std::logic_error: " + what; });
+    return false;
+  }
   return ok;
 }
 
@@ -236,25 +253,37 @@ inline void count_neighbour_patterns(vh::Case& c, int r, int cN, const std::vect
 }
 
 // ---------------------------------------------------------------------------------------------- line
-// Runs the line routine on `in` (any range), with comparator lt; `rank(x)` maps an element to a double that is monotone for lt
-// (equal for equivalent elements), so that the oracle can be computed on ranks and emitted elements mapped back.
+// Runs the line routine on `in` (any range, read ONCE: single-pass ranges are allowed), with comparator lt.
+//   ranks      : for each input element, a double that is monotone for lt (equal for equivalent elements): the oracle is computed
+//                on ranks and the emitted elements are mapped back with rank(x);
+//   is_inf(x)  : x is what the routine passes as death of the final call, std::numeric_limits<T>::infinity();
+//   inf_is_a_value : that "infinity" is also an ordinary value of T (integral T: it is T(0)): then it is only required in the
+//                final call, and every other call is mapped through rank alone.
+//   E          : the expected diagram of ranks (ignored when ranks is empty).
 template <class Range, class Compare, class Rank, class IsInf>
-bool check_line(Ctx& X, const Range& in, Compare lt, Rank rank, IsInf is_inf, const std::string& cmpname, const Input_txt& input_txt) {
+bool check_line_ranks(Ctx& X, const Range& in, const std::vector<double>& ranks, const Expected& E, Compare lt, Rank rank, IsInf is_inf,
+                      bool inf_is_a_value, const std::string& cmpname, const Input_txt& input_txt) {
   vh::Case& c = X.c;
   typedef std::decay_t<decltype(*std::begin(in))> T;
-  std::vector<double> ranks;
-  for (auto const& x : in) ranks.push_back(rank(x));
   std::vector<std::pair<T, T>> calls;
-  Gudhi::persistent_cohomology::compute_persistence_of_function_on_line(in, [&](T b, T d) { calls.emplace_back(b, d); }, lt);
-  c.count("call.line." + cmpname);
   const std::string sig = "line,cmp=" + cmpname;
+#ifdef GUDHI_DEBUG
+  c.count("build.debug_checks_live.line");
+#endif
+  try {
+    Gudhi::persistent_cohomology::compute_persistence_of_function_on_line(in, [&](T b, T d) { calls.emplace_back(b, d); }, lt);
+  } catch (const std::logic_error& e) {
+    const std::string what = e.what();
+    X.violation("line.debug_check_failed", sig, [&] { return "input " + input_txt + " std::logic_error: " + what; });
+    return false;
+  }
+  c.count("call.line." + cmpname);
   if (ranks.empty()) {
     c.count("cmp.line.empty_input");
     if (!calls.empty()) { X.violation("line.empty_input", sig, [&] { return "output functor called on an empty input"; }); return false; }
     return true;
   }
-  Expected E = expected_of(0, (int)ranks.size(), ranks);
-  // convention: the last call is (minimum, infinity); no other call has an infinite death
+  // convention: the last call is (minimum, infinity); no other call has an infinite death (unless the input has +inf samples)
   c.count("cmp.line.last_call_is_minimum");
   if (calls.empty() || !is_inf(calls.back().second)) {
     X.violation("line.last_call_is_minimum", sig + ",no_final_infinite_call", [&] { return "input " + input_txt + ": last call is not (min, inf)"; });
@@ -263,8 +292,31 @@ bool check_line(Ctx& X, const Range& in, Compare lt, Rank rank, IsInf is_inf, co
   double ret = rank(calls.back().first);
   calls.pop_back();
   std::vector<Interval> em;
-  for (auto& p : calls) em.push_back(Interval{0, rank(p.first), is_inf(p.second) ? kInf : rank(p.second)});
+  for (auto& p : calls) em.push_back(Interval{0, rank(p.first), (!inf_is_a_value && is_inf(p.second)) ? kInf : rank(p.second)});
   return compare_with_model(X, "line", sig, input_txt, em, E, true, ret);
+}
+
+// lines of more than kLineModelMax samples are judged with the elder-rule oracle alone (the cell model is quadratic on nested inputs)
+const size_t kLineModelMax = 200;
+inline Expected expected_of_line(Ctx& X, const std::vector<double>& ranks, const Input_txt& input_txt) {
+  if (ranks.empty()) return Expected();
+  Expected fast = expected_from(line_elder_rule(ranks), ranks);
+  if (ranks.size() > kLineModelMax) return fast;
+  Expected E = expected_of(0, (int)ranks.size(), ranks);
+  X.c.count("cmp.model.line_elder_rule_vs_cell_model");
+  if (!same_expected(E, fast, false))
+    X.violation("harness.model_line_elder_rule", "line", [&] { return "input " + input_txt + " elder rule " + oracle::show(fast.offdiag) + " cell model " + oracle::show(E.offdiag); });
+  return E;
+}
+
+// multi-pass ranges: the ranks are read off the range itself
+template <class Range, class Compare, class Rank, class IsInf>
+bool check_line(Ctx& X, const Range& in, Compare lt, Rank rank, IsInf is_inf, const std::string& cmpname, const Input_txt& input_txt,
+                bool inf_is_a_value = false) {
+  std::vector<double> ranks;
+  for (auto const& x : in) ranks.push_back(rank(x));
+  Expected E = expected_of_line(X, ranks, input_txt);
+  return check_line_ranks(X, in, ranks, E, lt, rank, is_inf, inf_is_a_value, cmpname, input_txt);
 }
 
 // ---------------------------------------------------------------------------------------------- weak orders
@@ -290,6 +342,27 @@ struct Weak_orders {
     if (missing > n - i) return;
     if (i == n) { f(v, k); ++cnt; return; }
     for (int a = 0; a < k; ++a) { v[i] = a; rec(i + 1, k, used | (1u << a), v, f, cnt); }
+  }
+};
+
+// All maps cells -> {0..L-1} (every weak order with at most L levels, most of them several times).  A block fixes the levels of
+// the first p cells; f(levels, number of distinct levels used).
+struct Level_maps {
+  int n, L, p;
+  Level_maps(int n_, int L_, int p_) : n(n_), L(L_), p(std::min(p_, n_)) {}
+  long num_blocks() const { return Weak_orders::ipow(L, p); }
+  long maps_per_block() const { return Weak_orders::ipow(L, n - p); }
+  template <class F> long for_each_in_block(long b, F&& f) const {
+    std::vector<int> v(n, 0);
+    for (int i = 0; i < p; ++i) { v[i] = (int)(b % L); b /= L; }
+    long cnt = 0;
+    while (true) {
+      unsigned used = 0; for (int x : v) used |= 1u << x;
+      f(v, __builtin_popcount(used)); ++cnt;
+      int i = p; while (i < n && ++v[i] == L) { v[i] = 0; ++i; }
+      if (i == n) break;
+    }
+    return cnt;
   }
 };
 
